@@ -185,6 +185,8 @@ def make_signals(r):
     tau = r.get("tau")
     if tau is not None:
         est = est[list(tau)].copy()
+    for (which, src, a, b, g) in r.get("gains", []):
+        (ref if which == "ref" else est)[src, a:b] *= g        # a passage far quieter (or louder) than the rest
     for (which, src, a, b) in r.get("silent", []):
         (ref if which == "ref" else est)[src, a:b] = 0.0
     return ref, est
@@ -1594,6 +1596,14 @@ def _gen_framewise(fnname):
                 if e - s < r["n"]:
                     sil.append([rng.choice(["ref", "est"]), rng.randrange(nsrc), s, e])
             r["silent"] = sil
+            if rng.random() < 0.3:
+                # extreme dynamic range inside one source: a passage 180..300 dB below (or above) the rest is NOT silence
+                # (whole windows of it still have finite scores); before, after or between louder material
+                nwin = max(1, (r["n"] - window + hop) // hop)
+                a = rng.randrange(nwin) * hop
+                b = rng.choice([r["n"], min(r["n"], a + window + hop * rng.randint(0, 2))])
+                r["gains"] = [[rng.choice(["ref", "est"]), rng.randrange(nsrc), a, b,
+                               rng.choice([1e-9, 1e-12, 1e-15, 1e9])]]
             r["check"] = rng.choice(["fw_values", "fw_values", "fw_silent_nan", "fw_silent_nan"])
             yield r
         if shard == 0:
